@@ -107,6 +107,22 @@ class Stream:
         rng = Rng(chk.seed)
         n = ninst if ninst is not None else (150 if tier == "quick" else 1500)
         self.blocks = []; self.meta = []
+        if with_viz:
+            # corpus first: minimised witnesses of defects found earlier (root sub-problem, every flavour and type, all 64 flag sets)
+            import glob
+            for f in sorted(glob.glob(os.path.join(VERIF, "corpus", "C20", "*.txt"))):
+                il = [l for l in open(f).read().split("\n") if l.startswith("I ")]
+                if not il: continue
+                I = Inst.parse(il[0]); root = (0, I.init, I.initval, [])
+                lines = [I.line()]; metas = [None]
+                for flv in flavours:
+                    if flv != 2 and I.notimp: continue
+                    for ct in types:
+                        lines.append(mline(flv, ct, 1, IMIN, 0, 0, 0, root))
+                        metas.append({"inst": -2, "root": root, "flv": flv, "ct": ct, "w": 1, "lb": IMIN, "vstar": None})
+                        for fl in range(64):
+                            lines.append("V %d %d" % (flv, fl)); metas.append({"viz": fl, "of": len(lines) - 2})
+                self.blocks.append(lines); self.meta.append((I, metas))
         for i in range(n):
             r = rng.fork()
             kind = i % 5
@@ -618,12 +634,21 @@ def check_diagram(pid, tier):
                     # the terminal layer is non-empty iff the diagram has a best value (best_node = max over the terminal layer)
                     if term != ref_has_value:
                         fails.append((pid, "terminal", "terminal node %s although the terminal layer is %s (best_value = %s)"
-                                      % ("drawn" if term else "not drawn", "non-empty" if ref_has_value else "empty", "some" if ref_has_value else "none"), ctx,
-                                      ("clean-terminal-drawn-for-pruned-last-layer" if (term and refmeta["flv"] != 2) else None)))
+                                      % ("drawn" if term else "not drawn", "non-empty" if ref_has_value else "empty", "some" if ref_has_value else "none"), ctx))
                     if not rterm: stats["empty_last_layer"] += 1
     if pid == "C13":
         import check_simple
         check_simple.c13_combinators(chk, tier)
+    if dis and not fails and pid in ("C06", "C07", "C08"):
+        # the correspondence broke but every clause held so far: widen the search for a concrete failing input (six times as many
+        # instances from another seed; the clauses are evaluated on the implementation's answers only)
+        class _W: pass
+        w = _W(); w.seed = chk.seed + 77; w.pid = pid + "w"
+        wst = Stream(w, tier, types=types, widths=widths, ninst=(900 if tier == "quick" else 6000), longarcs=True)
+        wres = wst.run()
+        fl2, _, _ = eval_diagram_properties(wres, {pid})
+        fails = [f for f in fl2 if f[0] in (pid, "ALL")]
+        chk.cov["widened_search"] = {"compilations": sum(len(r) for _, r in wres), "failing_inputs_found": len(fails)}
     for f in fails:
         chk.violation("property", "%s [%s]: %s" % (f[0], f[1], f[2]), f[3], cls=(f[4] if len(f) > 4 else None))
     for (I, meta, li, lm, case, why) in dis[:50]:
